@@ -211,6 +211,9 @@ func genStep(rt *rapid.T, p *Profile, cfg *Config, i int) Step { //nolint:cyclop
 		}
 		st.Retx = rapid.IntRange(0, 5).Draw(rt, "retx") == 0
 		st.RespLost = rapid.IntRange(0, 9).Draw(rt, "allocRespLost") == 0
+		if !st.Retx && rapid.IntRange(0, 5).Draw(rt, "afterRefresh0") == 0 {
+			st.Rel, st.RespLost = "after-refresh0", false // Refresh(0) and the new Allocate back to back
+		}
 		if p.Odd {
 			if rapid.IntRange(0, 7).Draw(rt, "txfrom") == 0 {
 				st.TxFrom = rapid.IntRange(1, nc).Draw(rt, "txFromC")
